@@ -25,4 +25,10 @@ def kani_unit(unit, package, into, harness_file, modpath, harnesses, modname="ve
                       extra_inject=list(extra_inject)))
 
 
+def verus_unit(unit, template, props, functions, **kw):
+    d = dict(unit=unit, engine="verus", template=template, props=props, functions=functions, harnesses=[])
+    d.update(kw)
+    UNITS.append(d)
+
+
 from units_math import *   # noqa
